@@ -216,5 +216,28 @@ def run(ctx, rep):
                     good = False
         rep.require(good, "feed", "parse_tail:ident-fields", wh(fn["span"]), "endianness/class/osabi/abiversion = ident.0..3",
                     "FileHeader::parse_tail does not store the ident tuple fields unchanged")
+    # ---------------------------------------------------------------- endianness / class plumbing in both parsers
+    # every lazy view, table, iterator or decoder created by an accessor gets the file's own byte order and class
+    from .. import prov
+    from ..engine import program
+    prov.set_program(program(F))
+    n_sites = 0
+    for fnx in F.all_fns():
+        if fnx["module"] not in ("elf_bytes", "elf_stream"):
+            continue
+        anx = analyze_fn(F, fnx)
+        for c in anx.calls():
+            lf = F.by_id.get(c.callee.get("resolved_id") or c.callee.get("id") or "")
+            ins = (lf or {}).get("sig", {}).get("inputs") if lf else None
+            is_parse = c.declared_norm == "parse::ParseAt::parse_at" or c.callee_norm.endswith(" as parse::ParseAt>::parse_at")
+            if not is_parse and not (ins and len(ins) >= 2 and ins[0] == "E" and ins[1] == "file::Class"):
+                continue
+            n_sites += 1
+            a = [prov.norm(x) for x in c.arg_values()[:2]]
+            good = (a[0][0] == "fld" and a[0][2] == "endianness" and a[1][0] == "fld" and a[1][2] == "class" and a[0][1] == a[1][1])
+            rep.require(good, "plumbing", "%s|%s" % (fnx["qual"], c.callee_norm), c.where(), "constructed with the file header's endianness and class",
+                        "%s creates %s with (%s, %s) instead of the file's own endianness and class (an AnyEndian handle would then decode differently from the matching fixed spec)"
+                        % (fnx["qual"], c.callee_norm, prov.show(a[0])[:80], prov.show(a[1])[:80]))
+    rep.floor("plumbing", "view/decoder construction sites in the two parsers", n_sites, 30 if "std" in F["config"]["features"] else 15)
     rep.trusted_base += ["slice equality / indexing semantics of core", "C04 (no impl overrides a read method; is_little agrees with the variant) for "
                         "'AnyEndian then behaves as the matching fixed spec'"]
